@@ -16,12 +16,15 @@ extern unsigned g_log_branch[LOGMAX]; extern sid g_log_input[LOGMAX]; extern uns
 #ifdef C01_ALT
 extern op_merge__state g_merge_state; extern op_tine g_tine[NB];
 static inline op_merge__state *scon_get_merge_state(mscon *sc, unsigned long loc) { return &g_merge_state; }
+#include "alt_features.h"      /* written by prop.py: C01_HAVE_LAMBDA iff op_tine::next still passes a lambda to std::all_of */
+#ifdef C01_HAVE_LAMBDA
 static inline _Bool pvec_all_of(sid *b, sid *e, int functor)
 {
   for (unsigned i = 0; i < NB; ++i)
     if (b + i < e && !tine_slot_is_null((const _anonymous_ *)0, b + i)) return 0;
   return 1;
 }
+#endif
 #endif
 #ifdef C01_OR
 extern op_or__state g_or_state; extern sid g_origin_slot[NB]; extern op g_origin_op[NB];
